@@ -102,7 +102,8 @@ def set_cookie(chk, prog):
     fields = [x["name"] for x in st["fields"]] if st else []
     chk.floor("SetCookie fields", len(fields), 9)
     read = set()
-    for blk in body.blocks:
+    read_at = {}
+    for bi, blk in enumerate(body.blocks):
         for s in blk["stmts"]:
             if "pl" not in s:
                 continue
@@ -116,13 +117,20 @@ def set_cookie(chk, prog):
             for pl in pls:
                 if pl["l"] == 1 and pl["p"] and pl["p"][0][0] == "f":
                     read.add(pl["p"][0][1])
+                    read_at.setdefault(pl["p"][0][1], set()).add(bi)
         t = blk["term"]
         if t and t["k"] == "switch":
             pl = core.op_place(t["discr"])
             if pl and pl["l"] == 1 and pl["p"] and pl["p"][0][0] == "f":
                 read.add(pl["p"][0][1])
+                read_at.setdefault(pl["p"][0][1], set()).add(bi)
+    rets = core.return_blocks(body)
     for i, name in enumerate(fields):
         chk.ob("R3.fields", f, f"field {name} read", i in read, f"SetCookie.{name} is never read by the Set-Cookie serialiser (attribute silently dropped)", where=body.file)
+        if i in read:
+            w = core.must_pass(body, [0], rets, through_nodes=sorted(read_at[i]), after_from=False)
+            chk.ob("R3.independent", f, f"field {name} is looked at on every path (its attribute does not depend on another attribute being absent)", w is None,
+                   f"SetCookie.{name} is only consulted on some paths: for some combination of the other attributes it is silently dropped", where=body.file, path=w)
     lits = " ".join(fmt.format_literals(body))
     for attr in ("Expires=", "Max-Age=", "Domain=", "Path=", "SameSite=", "Secure", "HttpOnly"):
         chk.ob("R3.attr", f, f"attribute {attr}", ("; " + attr) in lits, f"no format piece '; {attr}' in the serialiser (RFC 6265 §4.1.1 attribute names)")
@@ -225,6 +233,21 @@ def redirect_set(chk, prog, st):
                    "the client may re-send without follow_redirects being set", where=body.where(b))
             chk.ob("R5.guard", f, "recursive send dominated by the redirect-status test", status,
                    "the client may re-send although the response is not a redirect", where=body.where(b))
+            # ... and conversely: once both tests hold, nothing (a hop counter, a visited set) can divert the client before it follows
+            for s_, lab, d, info in gs:
+                if lab == "true" and core.desc_contains(d, lambda x: x[0] == "closure") and info and "true" in info.get("edges", {}):
+                    w = core.must_pass(body, [info["edges"]["true"]], core.return_blocks(body), through_nodes=[b], after_from=False)
+                    chk.ob("R5.follows", f, "a redirect response with follow_redirects set is always followed (every path reaches the re-send)", w is None,
+                           "between the redirect test and the re-send there is a way out (e.g. a redirect counter): some chain of redirects does not end at the final response",
+                           where=body.where(s_), path=w)
+            sw = [blk for blk in range(len(c.blocks)) if c.term(blk) and c.term(blk)["k"] == "switch"]
+            odd = []
+            for blk in sw:
+                dd = core.describe(prog, c, c.term(blk)["discr"])
+                if core.desc_contains(dd, lambda x: x[0] == "upvar") and not core.desc_contains(dd, lambda x: x[0] == "param"):
+                    odd.append(c.where(blk))
+            chk.ob("R5.follows", f, "inside the re-send closure, branches depend on the Location value only (not on client state)", not odd,
+                   f"branch on captured client state at {odd}", where=c.file)
     # the non-redirect exit returns the transport result unchanged
     prods = core.slice_back(prog, body, 0, stop_calls=[r"Client::request(_tls)?$", r"::and_then$"])
     names = sorted(set(p.name() for p in prods if p.kind == "call"))
